@@ -622,3 +622,28 @@ package datastore
 //@   calls_havoc
 //@   modifies *
 //@   assert at "r.data[newname] = r.data[oldname]": heldw("r.RWMutex") && has(r.data, oldname) && !has(r.data, newname)
+
+// ---- goroutine/parent races on captured variables (C11), structural contracts ----
+// Each function below starts goroutines; the only obligation generated for it is that no local variable
+// written by a goroutine it starts is accessed by the function afterwards (#gorace...). The bodies are not
+// executed symbolically.
+//@ func MigrateInstance
+//@   prop C11
+//@   structural
+
+//@ func TransferData
+//@   prop C11
+//@   structural
+
+//@ func copyVersions
+//@   prop C11
+//@   structural
+
+//@ func DeleteConflicts
+//@   prop C11
+//@   structural
+
+//@ func PushData
+//@   prop C11
+//@   structural
+
